@@ -57,7 +57,7 @@ Definition first_line (info : str) : str := hd [] (split_lines info []).
 (* the procedures the error passes through, innermost first *)
 Definition expected_procs (frames : list str) (through_source : bool) : list str :=
   (if through_source then [lit "rcei"] else []) ++
-  rev (flat_map (fun p => if str_eqb (snd p) (lit "proc") then [lit "q" ++ show_Z (Z.of_nat (fst p))] else [])
+  rev (flat_map (fun p => if str_eqb (snd p) (lit "proc") || str_eqb (snd p) (lit "rproc") then [lit "q" ++ show_Z (Z.of_nat (fst p))] else [])
                 (combine (seq 0 (length frames)) frames)).
 
 Definition trace_ok (c : term) (info : str) : bool :=
